@@ -12,7 +12,8 @@ def run(ctx, replay=None):
         ex = [dict(shape="chain", max_env=1, flags="m,c,o", faults=True),
               dict(shape="chain", max_env=2, flags="m,c", faults=True),
               dict(shape="chain", max_env=1, flags="m,c,e", faults=True, env="EditProfile,Expire,Edit,DeleteArt"),
-              dict(shape="chain", max_env=1, flags="m,c", faults=True, env="SetIssuer,Edit")]
+              dict(shape="chain", max_env=1, flags="m,c", faults=True, env="SetIssuer,Edit"),
+              dict(shape="chain", max_env=1, flags="m,c", faults=True, env="SetProfile,EditProfile")]
     else:
         mc = [dict(shape="chain", max_env=3), dict(shape="star", max_env=3),
               dict(shape="chain", max_env=0, flagsets="AllFlagSets", env="EverythingEnv", simulate="num=3000,depth=100")]
@@ -22,5 +23,5 @@ def run(ctx, replay=None):
               dict(shape="chain", max_env=0, flags="m,c,o,e", extra="a", faults=True, random_walks=40000, walk_len=10),
               dict(shape="chain", max_env=2, flags="m,c", faults=True, env="SetIssuer,Edit,DeleteArt,StripKey"),
               dict(shape="two", max_env=0, flags="m,c,o,e", extra="a", faults=True, random_walks=20000, walk_len=12,
-                   env="Edit,Touch,DeleteArt,Truncate,StripKey,ResaveArt,Replace,MakeCsr,EditProfile,Expire,SetIssuer,RemoveConfig,AddConfig")]
+                   env="Edit,Touch,DeleteArt,Truncate,StripKey,ResaveArt,Replace,MakeCsr,EditProfile,Expire,SetIssuer,RemoveConfig,AddConfig,SetProfile")]
     return repo.run_lifecycle(ctx, "C15", mc, ex, "fault_enumeration", ASSUME, replay)
